@@ -34,6 +34,17 @@ CHECKS = {
             "crediting rule of the statement is compared with counts, reward lists, means and variances of every cell reachable from the root.",
             "The anchored attributes name the handed-out cell (its representative is checked against the returned point); GPO validation rounds are recognised inside the published horizon.",
             "stateless bounded-exhaustive script enumeration of the implementation in lock-step with a ledger reference model"),
+    "C05": ("model_checking", "3 C05",
+            "Every reward sequence in {0,1}^8 / {0,1,-1}^6 (quick; 10/8 thorough) and every script within k deviations of base scripts over 70 "
+            "rounds, for T-HOO/HCT/VHCT x 4 partitions x parameter grid; the stored U/B of every non-root cell is re-derived from the raw "
+            "history after every round and every descent step is checked against the reference B-values and the published stopping rule.",
+            "c1*delta<=1/2 alphabets; admitted degrees of freedom listed in the evidence assumptions; tolerance 1e-9.",
+            "stateless bounded-exhaustive script enumeration of the implementation in lock-step with a reference checker (published pseudo-code)"),
+    "C06": ("model_checking", "3 C06",
+            "Same execution space as C05; every recorded make_children call is judged against the published growth rule (at most one per "
+            "round, under the pulled cell, only a leaf, fresh children, exactly when depth/threshold rule says so).",
+            "Ambiguous rounds (readings of the rule disagree) are counted and skipped; c1*delta<=1/2 alphabets.",
+            "stateless bounded-exhaustive script enumeration of the implementation with a growth-rule reference checker"),
 }
 
 LATER = {
